@@ -7,6 +7,7 @@ package ir_test
 // runs the independent checker of wf_checker_test.go over every function body of every program.
 
 import (
+	"context"
 	"encoding/json"
 	"fmt"
 	"go/types"
@@ -684,11 +685,24 @@ func wfSelect(loaded []*packages.Package) (out []*packages.Package, skipped int,
 	return out, skipped, why
 }
 
+// wfLoadCtx bounds `go list` by the run's deadline (zero: none): a load that cannot finish within the
+// budget is abandoned and reported as not exhaustive.
+var wfLoadDeadline time.Time
+
+func wfLoadCtx() (context.Context, context.CancelFunc) {
+	if wfLoadDeadline.IsZero() {
+		return context.WithCancel(context.Background())
+	}
+	return context.WithDeadline(context.Background(), wfLoadDeadline)
+}
+
 func wfLoadStd(patterns ...string) (*wfCorpus, error) {
 	if len(patterns) == 0 {
 		patterns = []string{"std"}
 	}
-	cfg := &packages.Config{Mode: wfLoadMode, Env: wfEnv(), Dir: vx.RepoDir()}
+	ctx, cancel := wfLoadCtx()
+	defer cancel()
+	cfg := &packages.Config{Mode: wfLoadMode, Env: wfEnv(), Dir: vx.RepoDir(), Context: ctx}
 	loaded, err := packages.Load(cfg, patterns...)
 	if err != nil {
 		return nil, err
@@ -702,7 +716,9 @@ func wfLoadRepo(tests bool, patterns ...string) (*wfCorpus, error) {
 	if len(patterns) == 0 {
 		patterns = []string{"honnef.co/go/tools/..."}
 	}
-	cfg := &packages.Config{Mode: wfLoadMode, Env: wfEnv(), Dir: vx.RepoDir(), Tests: tests}
+	ctx, cancel := wfLoadCtx()
+	defer cancel()
+	cfg := &packages.Config{Mode: wfLoadMode, Env: wfEnv(), Dir: vx.RepoDir(), Tests: tests, Context: ctx}
 	loaded, err := packages.Load(cfg, patterns...)
 	if err != nil {
 		return nil, err
@@ -737,11 +753,14 @@ func wfTestdataDirs() []string {
 func wfLoadTestdata(rel string) (*wfCorpus, error) {
 	dir := filepath.Join(vx.RepoDir(), rel)
 	vers := strings.TrimPrefix(filepath.Base(dir), "go")
+	ctx, cancel := wfLoadCtx()
+	defer cancel()
 	cfg := &packages.Config{
-		Mode:  wfLoadMode,
-		Dir:   dir,
-		Tests: true,
-		Env:   wfEnv("GOPROXY=off", "GOFLAGS=-mod=vendor", "GO111MODULE="),
+		Mode:    wfLoadMode,
+		Context: ctx,
+		Dir:     dir,
+		Tests:   true,
+		Env:     wfEnv("GOPROXY=off", "GOFLAGS=-mod=vendor", "GO111MODULE="),
 		Overlay: map[string][]byte{
 			filepath.Join(dir, "go.mod"): []byte("module example.com\ngo " + vers),
 		},
@@ -961,6 +980,7 @@ func TestVerifC02(t *testing.T) {
 	}
 	budget := vx.Budget(100*time.Second, 17*time.Minute)
 	res.SetBudget(budget)
+	wfLoadDeadline = time.Now().Add(budget)
 	only := os.Getenv("VERIF_C02_ONLY") // development aid: gen | corpora
 	t0 := time.Now()
 	if only == "" || only == "gen" {
